@@ -274,6 +274,7 @@ def c03(res):
             return all_strategy_cfgs(rng, i, g, threads)
         return sym_cfgs(rng, g)
     run_family(res, "C03", FIELDS["C03"], graphs, cfgs)
+    sim_design(res, rng, q)
 
 
 def c11(res):
@@ -304,6 +305,7 @@ def c11(res):
                 "in-boundary non-satisfying path exists, EvCex) and forests (exactness) x all strategies incl. simulation "
                 "with boundaries and depth limits")
     run_family(res, "C11", FIELDS["C11"], graphs, cfgs)
+    sim_design(res, rng, q)
 
 
 def c13(res):
@@ -557,4 +559,26 @@ def checker_controls(res, rng, q):
         res.add_tlc(r, cfg)
         if not r["ok"]:
             raise ToolError("%s: %s violated on the algorithm SPEC\n%s" % (cfg, r["violated"], r["out"][-3000:]))
+    shutil.rmtree(wd, ignore_errors=True)
+
+
+def sim_design(res, rng, q):
+    """Simulation.tla: every sequence of chooser decisions over two consecutive traces on small graphs; the two as-found
+    variants (boundary exit ends the trace; discoveries overwritten) must violate WitnessAlways."""
+    wd = workdir("simdesign-%s-%s" % (res.pid, res.tier))
+    small = gg.f1_corpus(rng, 30) + [gg.random_graph(rng, "sm-%d" % i, 3, 5, nprops=rng.randint(1, 3)) for i in range(30 if q else 150)] \
+        + [gg.random_forest(rng, "smf-%d" % i, 3, 6) for i in range(10 if q else 40)]
+    gp = os.path.join(wd, "g.ndjson")
+    write_ndjson(gp, small)
+    for cfg in ("Simulation", "Simulation_depth"):
+        r = run_tlc("Simulation.tla", "cfg/%s.cfg" % cfg, env=dict(GRAPHS=gp), workers=8, timeout=3000, heap="10g", name=cfg)
+        res.add_tlc(r, cfg)
+        if not r["ok"]:
+            raise ToolError("%s: %s violated on the simulation SPEC\n%s" % (cfg, r["violated"], r["out"][-3000:]))
+    for cfg in ("Simulation_asis_boundary", "Simulation_asis_overwrite"):
+        r = run_tlc("Simulation.tla", "cfg/%s.cfg" % cfg, env=dict(GRAPHS=gp), workers=4, timeout=1200, name=cfg)
+        if r["violated"] != "WitnessAlways":
+            res.notes.append("self-check: %s did not violate WitnessAlways on this corpus (%s)" % (cfg, r["violated"]))
+        else:
+            res.notes.append("self-check: %s violates WitnessAlways as expected" % cfg)
     shutil.rmtree(wd, ignore_errors=True)
